@@ -1067,6 +1067,7 @@ func emitTranslated(p *pkgInfo) (out string, err error) {
 					debug.PrintStack()
 				}
 				why := strings.ReplaceAll(fmt.Sprint(r), "-/", "- /")
+				delete(t.psigs, name) // (a stream function registers its signature before its body is translated)
 				untranslated = append(untranslated, name+": "+why)
 				out = fmt.Sprintf("/- NOT TRANSLATED: %s — %s -/\n", name, why)
 			}
